@@ -99,6 +99,8 @@ type proxyCfg struct {
 	IdPAdvertisedPKCE     []string      // code_challenge_methods_supported of the discovery document (nil = S256 and plain)
 	RedisRealTime         bool          // miniredis TTLs run down in real time (they are otherwise frozen): locks and entries really expire
 	RedisReadTimeout      time.Duration // read_timeout of the Redis client (0 = the client's default of 3 s)
+	AllowQuerySemicolons  bool          // --allow-query-semicolons (takes effect in the proxy's own server only)
+	SignatureKey          string        // --signature-key "algo:secret": requests to upstreams are signed (GAP-Signature)
 	BindAddress           string        // the proxy's own HTTP listener ("" = none: the suites call the handler)
 	SecureBindAddress     string        // with ForceHTTPS: the proxy's own TLS listener (default 127.0.0.1:8443)
 }
@@ -223,6 +225,8 @@ func newEnv(c *suiteCtx, cfg proxyCfg) (*testEnv, error) {
 		}
 	}
 	o.Server.BindAddress = cfg.BindAddress
+	o.AllowQuerySemicolons = cfg.AllowQuerySemicolons
+	o.SignatureKey = cfg.SignatureKey
 	o.RawRedirectURL = cfg.RedirectURL
 	if len(cfg.Htpasswd) > 0 {
 		var sb strings.Builder
